@@ -1267,8 +1267,10 @@ def build_entries(H):
     add("putils.colors2cmap", lambda colors: H.putils.colors2cmap(colors)(np.linspace(0, 1, 7)),
         lambda rng: [Arg("colors", {0.: "#3399FF", rng.choice([0.1, 0.4]): "#33FFFF", 1.0: "#33FF99"}, "fixed")], "fixed")
     add("putils.cmap2colors", lambda ncols, cmap: H.putils.cmap2colors(ncols, cmap),
-        lambda rng: [Arg("ncols", rng.randint(3, 9), "fixed"), Arg("cmap", rng.choice(["Paired", "safe", "viridis"]), "fixed")],
-        "fixed")
+        lambda rng: [Arg("ncols", rng.randint(3, 9), "fixed"), Arg("cmap", "safe", "fixed")], "fixed")
+    add("putils.cmap2colors/named", lambda ncols, cmap: H.putils.cmap2colors(ncols, cmap),
+        lambda rng: [Arg("ncols", rng.randint(3, 9), "fixed"), Arg("cmap", rng.choice(["Paired", "viridis"]), "fixed")],
+        "fixed", optional=True)
     add("boxplot.compute_percentiles", lambda coverage: H.boxplot.compute_percentiles(coverage),
         lambda rng: [Arg("coverage", rng.choice([50., 90., 10.]), "fixed")], "fixed")
 
@@ -1279,8 +1281,12 @@ def build_entries(H):
             b.draw(ax=ax)
             b.show_count()
             b.set_ylim((1., 8.))
-            b.set_color(".*", "tab:red")
-            return b.stats, ax.get_ylim()
+            try:
+                b.set_color(".*", "tab:red")
+                coloured = True
+            except TypeError:           # column labels that are not strings (ndarray input) are not matched by `re`
+                coloured = False
+            return b.stats, ax.get_ylim(), coloured
         finally:
             plt.close(fig)
     add("boxplot.Boxplot/methods", lambda data: bp_methods(data), lambda rng: [Arg("data", holes(rng, mat(rng, 25, 3)))],
@@ -1314,15 +1320,16 @@ def build_entries(H):
             "fixed", covers=[f"transform.{tn}." + k for k in ("__init__", "get_nu", "get_lam", "get_xmax", "params_logprior")]
             + ["transform.Transform." + k for k in ("params", "constants", "__getitem__", "__init__", "params_logprior")])
 
-    def tr_set(trans):
-        k = trans.params.names[0] if trans.params.nval else None
-        if k is not None:
-            trans[k] = trans[k] * 0.9
+    def tr_set(trans, value):
+        trans[trans.params.names[0]] = value
         before = np.array(trans.params.values)
         trans.reset()
         return before, np.array(trans.params.values)
-    add("transform.Transform.__setitem__", lambda trans: tr_set(trans),
-        lambda rng: [Arg("trans", tr_make(rng.choice(["Log", "BoxCox2", "YeoJohnson", "Sinh"]), rng), "receiver")], "fixed",
+
+    def tr_set_args(rng):
+        tr = tr_make(rng.choice(["Log", "BoxCox2", "YeoJohnson", "Sinh"]), rng)
+        return [Arg("trans", tr, "receiver"), Arg("value", float(tr[tr.params.names[0]]) * rng.choice([0.9, 0.8]), "fixed")]
+    add("transform.Transform.__setitem__", lambda trans, value: tr_set(trans, value), tr_set_args, "fixed",
         covers=["transform.Transform.__setitem__", "transform.Transform.reset"])
     add("transform.get_transform", lambda name: T.get_transform(name).params.values,
         lambda rng: [Arg("name", rng.choice(tnames), "fixed")], "fixed")
@@ -1357,14 +1364,14 @@ UNRUNNABLE = {
     "dutils.dayofyear": "pandas 3 returns a read-only `.values`; the function assigns into it and raises",
     "transform.Softmax.backward_censored": "np.maximum / float conversion of a 2-D censor: raises for every input",
     "transform.YeoJohnson.backward_censored": "forward(censor) of a scalar raises TypeError for every input",
+    "putils.scattercat": "uses matplotlib.cm.get_cmap, removed from the installed matplotlib: raises for every input",
 }
 
 
-def oracle(ctx, H, rec):
+def oracle(ctx, H, rec, entries):
     np, pd = H.np, H.pd
     rng = ctx.rng
     sn = Snap(H)
-    entries = build_entries(H)
     accepted_canonical = {}
     stats = {"calls": 0, "rejected": 0, "retyped": 0}
     for ent in entries:
@@ -1515,6 +1522,427 @@ def oracle(ctx, H, rec):
         ctx.disagree(f"oracle: {n} rejects its canonical input ({accepted_canonical.get(n + '!err')}): nothing is "
                      f"checked for it", {"function": n})
 
+# ----------------------------------------------------------------------------------------------
+# inventory: every public function / method / property of the four packages, read from the CURRENT source on every
+# run, must be exercised by an entry or excluded here with a reason; every kernel call site must have a DSL term
+INVENTORY_MODULES = {"dutils": "data.dutils", "qualitycontrol": "data.qualitycontrol", "signatures": "data.signatures",
+                     "containers": "data.containers", "grid": "gis.grid", "gutils": "gis.gutils", "oz": "gis.oz",
+                     "putils": "plot.putils", "boxplot": "plot.boxplot", "violinplot": "plot.violinplot",
+                     "armodels": "stat.armodels", "metrics": "stat.metrics", "sutils": "stat.sutils",
+                     "transform": "stat.transform"}
+EXCLUDED = [   # (regex on the qualified public name, reason)
+    (r"^containers\.", "bounded vectors are property C12 (state machine with its own aliasing model)"),
+    (r"^transform\.\w+\.params_sample$", "parameter sampling belongs to C12 (bounds edited in place: fixed there)"),
+    (r"^grid\.Grid\.(from_stream|from_header|from_zip|load|save)$", "file input / output: property C13"),
+    (r"^grid\.get_grid$", "reads the packaged reference grids from zip files (C13 reader); no array argument"),
+    (r"^oz\.", "map layers: need shapefiles / cartopy data that are not installed; no numeric array argument"),
+    (r"^putils\.(blackwhite|darken_or_lighten|set_mpl|line|waterbalplot)$",
+     "no array / frame / dictionary argument or result (colour names, rcParams, a file name, axis decorations)"),
+    (r"^boxplot\.BoxplotItem\.", "style attributes (strings and scalars), no array data"),
+    (r"^boxplot\.Boxplot(Error)?$|^violinplot\.Violin(plotError)?$|^grid\.(Grid|Catchment)$|^transform\.\w+$",
+     "the class itself (its methods are listed one by one)"),
+]
+
+
+def inventory(ctx, H, entries):
+    import importlib
+    import inspect
+    import re
+    public = []
+    for short, mn in INVENTORY_MODULES.items():
+        m = importlib.import_module("hydrodiy." + mn)
+        for n, o in inspect.getmembers(m):
+            if n.startswith("_") or getattr(o, "__module__", None) != m.__name__:
+                continue
+            if inspect.isfunction(o):
+                public.append(f"{short}.{n}")
+            elif inspect.isclass(o):
+                for k, v in o.__dict__.items():
+                    if k.startswith("_") and k not in ("__getitem__", "__setitem__", "__add__", "__sub__", "__init__"):
+                        continue
+                    if inspect.isfunction(v) or isinstance(v, (property, classmethod, staticmethod)):
+                        public.append(f"{short}.{n}.{k}")
+    covered = set()
+    for e in entries:
+        for c in e.covers:
+            covered.add(c)
+            if c.startswith(("Grid.", "Catchment.")):
+                covered.add("grid." + c)
+    missing, excluded = [], {}
+    for name in public:
+        if name in covered:
+            continue
+        why = next((r for pat, r in EXCLUDED if re.search(pat, name)), None)
+        if why is None:
+            missing.append(name)
+        else:
+            excluded[name] = why
+    ctx.extra["inventory_public_names"] = len(public)
+    ctx.extra["inventory_covered"] = len([n for n in public if n in covered])
+    ctx.extra["inventory_excluded"] = {r: sorted(n for n, w in excluded.items() if w == r) for r in set(excluded.values())}
+    ctx.extra["inventory_missing"] = missing
+    for name in missing:
+        ctx.disagree(f"inventory: public name {name} of the current source is neither exercised by an entry of the "
+                     f"C18 oracle nor excluded with a reason", {"name": name})
+    # kernel call sites of the Python sources vs DSL terms vs what the shim saw
+    src = C.REPO / "src" / "hydrodiy"
+    used = {}
+    for f in sorted(src.rglob("*.py")):
+        if "tests" in f.parts:
+            continue
+        for m in re.finditer(r"c_hydrodiy_(?:data|stat|gis)\.(\w+)\s*(?:\(|$)", f.read_text(), re.M):
+            used.setdefault(m.group(1), str(f.relative_to(src)))
+    modelled = set(ctx.lean.ask(["kernels"])[0].split(","))
+    unmodelled = sorted(k for k in used if k not in modelled and not _scalar_only(H, k))
+    ctx.extra["kernel_call_sites"] = len(used)
+    ctx.extra["kernel_call_sites_without_dsl_term"] = {k: used[k] for k in unmodelled}
+    for k in unmodelled:
+        ctx.disagree(f"kernel {k} is called from {used[k]} but no DSL term of the ownership model mentions it",
+                     {"kernel": k, "file": used[k]})
+    return used
+
+
+def _scalar_only(H, kname):
+    """extension functions that take no array (calendar helpers, combi): nothing to own"""
+    for mod in (H.c_data, H.c_stat, H.c_gis):
+        f = getattr(mod, kname, None)
+        if f is not None:
+            doc = (getattr(f, "__doc__", "") or "")
+            return kname in ("combi", "isleapyear", "daysinmonth", "dayofyear")
+    return False
+
+
+# ----------------------------------------------------------------------------------------------
+# reference answers from a pristine interpreter state: a server process is forked before any library function has
+# run; for every request it forks a child that rebuilds the case from its seed, applies the requested edits and makes
+# ONE call. Module-level / lru caches, shared default objects and work buffers of the main process cannot reach it.
+class Pristine:
+    def __init__(self, H, entries):
+        import multiprocessing.connection as mpc
+        self.H, self.entries = H, entries
+        self.conn, child = mpc.Pipe()
+        self.ok = self.failed = 0
+        self.slow = []
+        self.pid = os.fork()
+        if self.pid == 0:
+            code = 0
+            try:
+                self.conn.close()
+                self.serve(child)
+            except BaseException:      # noqa
+                code = 1
+            os._exit(code)
+        child.close()
+
+    def serve(self, conn):
+        import pickle
+        import select
+        while True:
+            try:
+                req = conn.recv()
+            except EOFError:
+                return
+            if req is None:
+                return
+            r, w = os.pipe()
+            pid = os.fork()
+            if pid == 0:
+                os.close(r)
+                try:
+                    out = pickle.dumps(self.answer(req))
+                except BaseException as e:     # noqa
+                    out = pickle.dumps(("infra", f"{type(e).__name__}: {e}"))
+                with os.fdopen(w, "wb") as fh:
+                    fh.write(out)
+                os._exit(0)
+            os.close(w)
+            data, alive = b"", True
+            with os.fdopen(r, "rb") as fh:
+                while alive:
+                    ready, _, _ = select.select([fh], [], [], 60)
+                    if not ready:
+                        os.kill(pid, 9)
+                        data = pickle.dumps(("infra", "timeout"))
+                        break
+                    chunk = fh.read1(1 << 20) if hasattr(fh, "read1") else fh.read()
+                    if not chunk:
+                        alive = False
+                    else:
+                        data += chunk
+            os.waitpid(pid, 0)
+            conn.send_bytes(pickle.dumps((req["id"], pickle.loads(data))))
+
+    def answer(self, req):
+        H = self.H
+        ent = self.entries[req["entry"]]
+        kw, optvals, _ku, _rc = make_case(H, ent, req["spec"])
+        for _ in range(req["edits"]):
+            mutate_args(H, kw)
+        H.np.random.seed(req["numpy_seed"])
+        with warnings.catch_warnings(), quiet_stdout():
+            warnings.simplefilter("ignore")
+            try:
+                res = ent.fn(**kw, **optvals)
+            except Exception as e:       # noqa
+                return ("err", type(e).__name__)
+        return ("ok", Snap(H).snap(res))
+
+    def ask(self, entry_index, spec, edits, numpy_seed):
+        import pickle
+        import time
+        self.nreq = getattr(self, "nreq", 0) + 1
+        t0 = time.time()
+        try:
+            self.conn.send({"id": self.nreq, "entry": entry_index, "spec": spec, "edits": edits,
+                            "numpy_seed": numpy_seed})
+            while True:
+                if not self.conn.poll(90):
+                    raise TimeoutError("pristine server")
+                rid, rep = pickle.loads(self.conn.recv_bytes())
+                if rid == self.nreq:         # a late reply to a request given up earlier is dropped
+                    break
+        except Exception as e:       # noqa
+            rep = ("infra", f"{type(e).__name__}: {e}")
+        dt = time.time() - t0
+        if dt > 5 or rep[0] == "infra":
+            self.slow.append((self.entries[entry_index].name, round(dt, 1), rep[1] if rep[0] == "infra" else "slow"))
+        if rep[0] == "infra":
+            self.failed += 1
+        else:
+            self.ok += 1
+        return rep
+
+    def close(self):
+        try:
+            self.conn.send(None)
+            self.conn.close()
+            os.waitpid(self.pid, 0)
+        except Exception:     # noqa
+            pass
+
+
+def make_case(H, ent, spec):
+    """the arguments of one case, a deterministic function of `spec` (so that another process can rebuild them)"""
+    import random
+    np, pd = H.np, H.pd
+    rng = random.Random(spec["seed"])
+    H.tiny, H.big, H.bigoff, H.varied = spec["tiny"], spec["big"], spec["bigoff"], spec["varied"]
+    hmode, asg, iplan = spec["holes"], spec["asg"], spec["iplan"]
+    kw, kinds_used, receivers = {}, {}, set()
+    for a in ent.gen(rng):
+        if a.nature in ("fixed", "receiver"):
+            kw[a.name] = a.value
+            if a.nature == "receiver":
+                receivers.add(a.name)
+            continue
+        k = asg.get(a.name, "c64")
+        if a.kinds is not None and k not in a.kinds:
+            k = a.kinds[0]
+        if ent.canonical == "pandas" and k == "c64":
+            k = "pandas"
+        base = inject(np, rng, a.value, hmode) if a.nature == "float" else a.value
+        obj, ka = variant(np, pd, base, k, a.nature)
+        kw[a.name] = obj
+        kw.setdefault("__keep__", []).append(ka)
+        kinds_used[a.name] = k
+    keep = kw.pop("__keep__", [])
+    optvals = {}
+    for j, (k, vals) in enumerate(sorted(ent.options.items())):
+        optvals[k] = vals[0] if iplan == 0 else (vals[iplan % len(vals)] if j == iplan % len(ent.options)
+                                                else rng.choice(vals))
+    if optvals:
+        kinds_used["options"] = repr(optvals)
+    if hmode != "none":
+        kinds_used["holes"] = hmode
+    H._keepalive = keep
+    return kw, optvals, kinds_used, receivers
+
+
+def _edit_array(np, a):
+    """equal-size in-place edit: other values, same dtype / shape / kind of content"""
+    if a.size == 0 or not a.flags.writeable:
+        return
+    rolled = np.roll(a, 1, axis=0).copy() if a.ndim else a.copy()
+    if a.dtype.kind == "f":
+        a[...] = rolled * 0.75 + 0.01
+    else:
+        a[...] = rolled
+
+
+def mutate_args(H, kw):
+    """edit the arguments in place (arrays, lists, frames), re-assign public attributes of the objects (Grid.data,
+    transform parameters): same sizes, other values. Deterministic."""
+    np, pd = H.np, H.pd
+
+    def edit(x, depth=0):
+        if isinstance(x, np.ndarray):
+            if x.dtype != object:
+                _edit_array(np, x)
+        elif isinstance(x, (pd.Series, pd.DataFrame)):
+            v = np.array(x.values)
+            if v.dtype != object and v.size:
+                _edit_array(np, v)
+                x.iloc[...] = v
+        elif isinstance(x, list) and depth < 4:
+            if x and all(isinstance(e, (int, float)) and not isinstance(e, bool) for e in x):
+                v = np.array(x)
+                _edit_array(np, v)
+                x[:] = v.tolist()
+            else:
+                for e in x:
+                    edit(e, depth + 1)
+        elif isinstance(x, H.grid.Grid):
+            # public attribute re-assigned, equal size; a pure rearrangement of the cell values, so that the edit does
+            # not depend on the dtype the grid happens to have (the grid functions convert their arguments)
+            x.data = np.roll(np.roll(np.array(x.data), 1, axis=0), 2, axis=1)
+        elif isinstance(x, H.transform.Transform):
+            for k in list(x.params.names)[:1]:
+                try:
+                    x[k] = x[k] * 0.95
+                except Exception:      # noqa
+                    pass
+    for n in sorted(kw):
+        edit(kw[n])
+
+
+def scramble(H, x, depth=0):
+    """what a caller may do with a result it owns: overwrite it in place"""
+    np, pd = H.np, H.pd
+    if isinstance(x, np.ndarray):
+        if x.dtype != object and x.size and x.flags.writeable:
+            x[...] = (~x if x.dtype.kind == "b" else (7 if x.dtype.kind in "iu" else -12345.678))
+    elif isinstance(x, (pd.Series, pd.DataFrame)):
+        try:
+            x.iloc[...] = -12345.678 if all(str(t).startswith("float") for t in np.atleast_1d(x.dtypes)) else 7
+        except Exception:      # noqa
+            pass
+    elif depth > 5:
+        return
+    elif isinstance(x, list):
+        if x and all(isinstance(e, (int, float)) for e in x):
+            x[:] = [7] * len(x)
+        for e in x:
+            scramble(H, e, depth + 1)
+    elif isinstance(x, tuple):
+        for e in x:
+            scramble(H, e, depth + 1)
+    elif isinstance(x, dict):
+        for k in list(x):
+            if isinstance(x[k], (int, float, str)) and not isinstance(x[k], bool):
+                x[k] = 7
+            else:
+                scramble(H, x[k], depth + 1)
+    elif isinstance(x, H.grid.Grid):
+        scramble(H, x._data, depth + 1)
+    elif isinstance(x, H.grid.Catchment):
+        for k in ("_idxcells_area", "_idxcells_area_filled", "_idxcells_boundary", "_xycells_boundary"):
+            scramble(H, getattr(x, k, None), depth + 1)
+        scramble(H, x._flowdir, depth + 1)
+
+
+def snap_equal(a, b):
+    if isinstance(a, float) and isinstance(b, float):
+        return a == b or (a != a and b != b)
+    if isinstance(a, (list, tuple)) and isinstance(b, (list, tuple)):
+        return len(a) == len(b) and all(snap_equal(u, v) for u, v in zip(a, b))
+    return a == b
+
+
+def histories(ctx, H, entries, pristine):
+    """short histories on ONE set of argument objects (and one receiver):
+    call -> [answer must equal the answer of a pristine interpreter] -> overwrite the returned object in place -> call
+    again [must give the original answer] -> edit the arguments in place / re-assign public attributes, equal sizes ->
+    call [must equal the pristine answer on the edited arguments] -> deep copy of the arguments -> call [same answer]"""
+    import copy
+    np = H.np
+    rng = ctx.rng
+    sn = Snap(H)
+    stats = {"histories": 0, "steps": 0, "pristine_answers": 0, "result_edits": 0, "argument_edits": 0, "deepcopies": 0}
+
+    def call(ent, kw, optvals, seed):
+        np.random.seed(seed)
+        with warnings.catch_warnings(), quiet_stdout():
+            warnings.simplefilter("ignore")
+            try:
+                return ("ok", ent.fn(**kw, **optvals))
+            except Exception as e:      # noqa
+                return ("err", type(e).__name__)
+
+    def versus(ent, tag, what, got, ref, case):
+        """got: ('ok', object) | ('err', name); ref: ('ok', snapshot) | ('err', name)"""
+        if ref[0] == "infra":
+            return
+        g = ("ok", sn.snap(got[1])) if got[0] == "ok" else got
+        if g[0] != ref[0] or (g[0] == "ok" and not snap_equal(g[1], ref[1])) or (g[0] == "err" and g[1] != ref[1]):
+            ctx.finding(f"{ent.name}/history/{tag}", f"{ent.name}: {what}", case)
+
+    for ie, ent in enumerate(entries):
+        if ent.name in UNRUNNABLE:
+            continue
+        probe = ent.gen(rng)
+        data_args = [a.name for a in probe if a.nature in ("float", "int")]
+        for ih in range(ctx.scale(2, 6)):
+            asg = {n: ("c64" if ih == 0 else rng.choice(KINDS)) for n in data_args}
+            spec = {"seed": rng.randrange(2 ** 31), "asg": asg, "iplan": ih, "tiny": False, "big": False,
+                    "bigoff": rng.randint(501, 560), "varied": ih > 0 and rng.random() < 0.5,
+                    "holes": "none" if ih == 0 else rng.choice(["none", "none", "nan"])}
+            seed = rng.randrange(2 ** 31)
+            kw, optvals, kinds_used, receivers = make_case(H, ent, spec)
+            case = {"function": ent.name, "kinds": kinds_used, "case_seed": spec["seed"], "numpy_seed": seed}
+            stats["histories"] += 1
+            # step 0: first answer == pristine answer
+            r1 = call(ent, kw, optvals, seed)
+            ref1 = pristine.ask(ie, spec, 0, seed)
+            stats["steps"] += 1
+            stats["pristine_answers"] += ref1[0] != "infra"
+            versus(ent, "first_answer_differs_from_pristine_state",
+                   "the answer depends on what the process did before (differs from a fresh interpreter on the same "
+                   "arguments)", r1, ref1, case)
+            ctx.count(("history", ent.name, ih, spec["seed"]), r1[0] == "ok", f"history/{'ok' if r1[0] == 'ok' else 'rejected'}")
+            if r1[0] != "ok":
+                continue
+            # step 1: overwrite the returned object in place, call again: the original answer
+            arg_leaves = [v for n in kw for v in leaves(H, kw[n])]
+            if not overlap(H, leaves(H, r1[1]), arg_leaves):
+                snap1 = sn.snap(r1[1])
+                scramble(H, r1[1])
+                r2 = call(ent, kw, optvals, seed)
+                stats["steps"] += 1
+                stats["result_edits"] += 1
+                versus(ent, "edited_result_changes_later_answer",
+                       "after the caller overwrote the returned object in place, the same call no longer gives the "
+                       "original answer", r2, ("ok", snap1), case)
+            if receivers:
+                continue        # a mutator's receiver legitimately accumulates state: no pristine comparison after edits
+            # step 2: arguments edited in place / public attributes re-assigned, equal sizes
+            mutate_args(H, kw)
+            r3 = call(ent, kw, optvals, seed)
+            ref3 = pristine.ask(ie, spec, 1, seed)
+            stats["steps"] += 1
+            stats["argument_edits"] += 1
+            stats["pristine_answers"] += ref3[0] != "infra"
+            versus(ent, "stale_answer_after_argument_edit",
+                   "after the arguments were edited in place (equal sizes) the answer is not the one a fresh interpreter "
+                   "gives on the edited arguments", r3, ref3, case)
+            # step 3: deep copy of the arguments
+            try:
+                kwc = copy.deepcopy(kw)
+            except Exception:      # noqa
+                continue
+            r4 = call(ent, kwc, optvals, seed)
+            stats["steps"] += 1
+            stats["deepcopies"] += 1
+            if r3[0] == "ok" and r4[0] == "ok":
+                d = same(H, r3[1], r4[1])
+                if d:
+                    ctx.finding(f"{ent.name}/history/deepcopy_of_arguments_changes_answer",
+                                f"{ent.name}: a deep copy of the arguments gives another answer: {d}", case)
+    stats["pristine_failures"] = pristine.failed
+    stats["pristine_slow_or_failed"] = pristine.slow[:20]
+    ctx.extra["histories"] = stats
+    if pristine.ok == 0:
+        ctx.disagree("histories: no reference answer could be obtained from the pristine process", {})
+
 
 def classify(msg):
     for key, tag in (("dtype", "dtype"), ("shape", "shape"), ("columns", "columns"), ("index", "index"),
@@ -1528,10 +1956,15 @@ def classify(msg):
 def body(ctx):
     H = load(ctx)
     rec = Recorder(H)
+    entries = build_entries(H)
+    pristine = Pristine(H, entries)          # forked before any library function has run in this process
     try:
+        inventory(ctx, H, entries)
         correspondence(ctx, H, rec)
-        oracle(ctx, H, rec)
+        oracle(ctx, H, rec, entries)
+        histories(ctx, H, entries, pristine)
     finally:
+        pristine.close()
         rec.uninstall()
         H.plt.close("all")
     ctx.extra["kernel_calls_seen_by_the_shim"] = rec.calls
